@@ -77,7 +77,9 @@ def build_udp(exe, rng, idx):
     for i, c in enumerate(cfg.clients):
         c.update(dup=dup, dup_explicit=True, rwin=None, rwout=None, rwuser=None, reqma=False, reqmap=False)
     cfg.clients[0]["host"] = "127.0.1.0/28"
-    cfg.clients[1]["host"] = "127.0.1.77"
+    # the second block: one more address, or a network that also contains the sources of the first block (which stays their block:
+    # it comes first)
+    cfg.clients[1]["host"] = "127.0.1.77" if idx % 2 else "127.0.1.0/24"
     cfg.servers[0].update(rwin=None, rwout=None)
     cfg.realms = [dict(name=b"*", srv=[cfg.servers[0]["name"]], acc=None, msg=None, accresp=False)]
     cfg.opts["verifyeap"] = 0
@@ -106,7 +108,7 @@ def build_udp(exe, rng, idx):
             pkt = h.make_request(0, code=rng.choice([1, 1, 4]), user=b"u@x", ident=ident, extra=[], pwd=False)
             if rng.random() < 0.1:
                 pkt = pkt + b"\x00" * rng.choice([1, 7])          # padded datagram: stripped
-            elif rng.random() < 0.05:
+            elif rng.random() < 0.12:
                 pkt = pkt[:-1]                                     # shorter than its length field: dropped
             last[n] = pkt
         out = h.send("udpsend %d %s" % (n, pkt.hex()))
